@@ -591,6 +591,10 @@ pub fn gen(stream: &str, tier: &str, seed: u64) -> Vec<String> {
         }
         "v5dec" | "v5poll" | "v5fault" => {
             if stream == "v5dec" {
+                for f in dictionary_frames() {
+                    out.push(format!("dec v5 {}", hex(&f)));
+                    out.push(format!("poll v5 {} - eof", hex(&f)));
+                }
                 // the grid sweeps as FRAMES (valid, so every decoder and the specification must accept them)
                 for p in crate::pgen::sweep_v5(thorough) {
                     if let Ok(e) = p.encode() {
@@ -1417,7 +1421,9 @@ pub fn short_poll_schedules(fam: &str) -> Vec<String> {
     };
     for a in 0..=255u8 {
         emit(&[a]);
-        for tail in [&[0x80u8][..], &[0x80, 0x80], &[0xff, 0xff, 0xff], &[0xff, 0xff, 0xff, 0xff], &[0xff, 0xff, 0xff, 0xff, 0x7f], &[0xff, 0xff, 0xff, 0x7f], &[0x00], &[0x01], &[0x02, 0x00]] {
+        for tail in [&[0x80u8][..], &[0x80, 0x80], &[0xff, 0xff, 0xff], &[0xff, 0xff, 0xff, 0xff], &[0xff, 0xff, 0xff, 0xff, 0x7f], &[0xff, 0xff, 0xff, 0x7f], &[0x00], &[0x01], &[0x02, 0x00],
+            // remaining length 0 / 2 spelled NON-MINIMALLY (padded with 80…00): body-less packets and acks
+            &[0x80, 0x00], &[0x80, 0x80, 0x00], &[0x80, 0x80, 0x80, 0x00], &[0x82, 0x00, 0x00, 0x01], &[0x82, 0x80, 0x00, 0x00, 0x01]] {
             let mut v = vec![a];
             v.extend_from_slice(tail);
             emit(&v);
@@ -1443,6 +1449,27 @@ pub fn tiny_frames(fam: &str, thorough: bool) -> Vec<String> {
             firsts.push((t << 4) | fl);
         }
     }
+    // the same first bytes with remaining length 0..=2 spelled with 1..3 padding bytes (non-minimal)
+    for first in firsts.iter() {
+        for rl in 0..=2usize {
+            for pad in 1..=3usize {
+                let total = (alpha.len() as u64).pow(rl as u32);
+                for mut k in 0..total {
+                    let mut f = vec![*first, rl as u8 | 0x80];
+                    for j in 0..pad {
+                        f.push(if j + 1 == pad { 0 } else { 0x80 });
+                    }
+                    for _ in 0..rl {
+                        f.push(alpha[(k % alpha.len() as u64) as usize]);
+                        k /= alpha.len() as u64;
+                    }
+                    let h = hex(&f);
+                    out.push(format!("dec {} {}", fam, h));
+                    out.push(format!("poll {} {} - eof", fam, h));
+                }
+            }
+        }
+    }
     for first in firsts {
         for rl in 0..=4usize {
             let total = (alpha.len() as u64).pow(rl as u32);
@@ -1455,6 +1482,83 @@ pub fn tiny_frames(fam: &str, thorough: bool) -> Vec<String> {
                 let h = hex(&f);
                 out.push(format!("dec {} {}", fam, h));
                 out.push(format!("poll {} {} - eof", fam, h));
+            }
+        }
+    }
+    out
+}
+
+/// DICTIONARY frames: every string literal harvested from the code under test placed, one at a time, in every
+/// text position of a v5 PUBLISH / CONNECT (content type, response topic, reason-like strings, user property
+/// name and value, topic, client id, user name, will fields), each in two variants: well-formed, and with a
+/// payload that is flagged as UTF-8 but is not.  A magic value that switches a check off is found by trying
+/// the values the source itself mentions.
+pub fn dictionary_frames() -> Vec<Vec<u8>> {
+    let mut out = Vec::new();
+    let st = |b: &mut Vec<u8>, t: &[u8]| {
+        b.extend_from_slice(&(t.len() as u16).to_be_bytes());
+        b.extend_from_slice(t);
+    };
+    let frame = |first: u8, body: Vec<u8>| {
+        let mut f = vec![first];
+        put_varint(&mut f, body.len());
+        f.extend(body);
+        f
+    };
+    for w in crate::pgen::dictionary().iter().filter(|w| w.len() <= 48) {
+        let wb = w.as_bytes();
+        for payload in [&b"ok"[..], &[0xff, 0xfe, 0x80][..]] {
+            // PUBLISH: the word as content type / response topic / correlation data / user property name / value / topic
+            for slot in 0..6 {
+                let mut props = vec![0x01, 0x01];
+                let mut topic: &[u8] = b"t";
+                match slot {
+                    0 => {
+                        props.push(0x03);
+                        st(&mut props, wb);
+                    }
+                    1 => {
+                        props.push(0x08);
+                        st(&mut props, wb);
+                    }
+                    2 => {
+                        props.push(0x09);
+                        st(&mut props, wb);
+                    }
+                    3 => {
+                        props.push(0x26);
+                        st(&mut props, wb);
+                        st(&mut props, b"v");
+                    }
+                    4 => {
+                        props.push(0x26);
+                        st(&mut props, b"k");
+                        st(&mut props, wb);
+                    }
+                    _ => topic = wb,
+                }
+                let mut body = Vec::new();
+                st(&mut body, topic);
+                put_varint(&mut body, props.len());
+                body.extend_from_slice(&props);
+                body.extend_from_slice(payload);
+                out.push(frame(0x30, body));
+            }
+            // CONNECT with a will flagged as text: the word as client id / user name / will content type / will topic
+            for slot in 0..4 {
+                let mut wprops = vec![0x01, 0x01];
+                if slot == 2 {
+                    wprops.push(0x03);
+                    st(&mut wprops, wb);
+                }
+                let mut body = vec![0, 4, b'M', b'Q', b'T', b'T', 5, 0x84, 0, 10, 0];
+                st(&mut body, if slot == 0 { wb } else { b"c" });
+                put_varint(&mut body, wprops.len());
+                body.extend_from_slice(&wprops);
+                st(&mut body, if slot == 3 { wb } else { b"w" });
+                st(&mut body, payload);
+                st(&mut body, if slot == 1 { wb } else { b"u" });
+                out.push(frame(0x10, body));
             }
         }
     }
